@@ -198,6 +198,13 @@ def gen(ck):
         rts.append((many, False))
         rts.append((many, True))
         rts.append(([('sysex', {'data': (1, 2, 3)})] + [('clock', {})] * nmsg + [('sysex', {'data': ()})], False))
+    # payload lengths around the block sizes an implementation may write or read in (4096, 8192, 16384, 65536 bytes / characters)
+    for ln in ([4094, 4095, 8190, 8191, 8192, 16383] if ck.tier == 'quick' else
+               [2046, 2047, 4094, 4095, 4096, 8189, 8190, 8191, 8192, 8193, 16382, 16383, 16384, 24575, 32767, 65534, 65535]):
+        body = tuple((i * 5 + 1) % 128 for i in range(ln))
+        for text in (False, True):
+            rts.append(([('sysex', {'data': (7,)}), ('sysex', {'data': body}), ('sysex', {'data': (8, 9)})], text))
+            rts.append(([('sysex', {'data': body})], text))
     # very long payloads: no size is special
     for ln in ([200000, 1100000] if ck.tier == 'quick' else [196606, 196607, 200000, 1048577, 3000000]):
         rts.append(([('sysex', {'data': (1,)}), ('sysex', {'data': tuple((i * 13) % 128 for i in range(ln))}), ('sysex', {'data': (2, 3)})], False))
